@@ -400,6 +400,34 @@ def run_case(case):
         if loader_uids(cl) != uids or len(cl.molecules.features["cluster"]) != N or not np.array_equal(cl.molecules.pos, LB.molecules.pos):
             bad("classify", "row-mismatch", f"classified loader holds uids {loader_uids(cl)}")
 
+    # aliasing: mutating a derived batch loader (add_tomogram) must not reach the loader it was derived from, nor the reverse
+    if kind == "batch":
+        import polars as pl2  # noqa
+
+        extra_uid = nmol  # a molecule that is in no initial loader
+        for dname, derive in (("copy", lambda l: l.copy()), ("replace(order)", lambda l: l.replace(order=0)), ("binning(1)", lambda l: l.binning(1)),
+                              ("replace(output_shape)", lambda l: l.replace(output_shape=(3, 3, 3))), ("filter(all)", lambda l: l.filter(pl.col("uid") >= 0)),
+                              ("head(N)", lambda l: l.head(N))):
+            P = apply_history(init, hist, "F", nmol, ntomo)
+            dP = digest(P)
+            C = derive(P)
+            C.add_tomogram(fingerprint(7), molecules([extra_uid]), image_id=99)
+            if digest(P) != dP:
+                bad(f"alias.{dname}", "parent-modified-by-child-mutation", f"add_tomogram() on the loader returned by {dname} changed its parent (images {sorted(map(str, P.images.keys()))})")
+            dC = digest(C)
+            P.add_tomogram(fingerprint(6), molecules([extra_uid]), image_id=99)
+            if digest(C) != dC:
+                bad(f"alias.{dname}", "child-modified-by-parent-mutation", f"add_tomogram() on the parent changed the loader derived by {dname}")
+            cu = loader_uids(C)
+            gotc = [_centre(a) for a in np.asarray(C.asnumpy())]
+            wantc = [code(7 if u == extra_uid else tomo_of(u, ntomo), *POS[u]) for u in cu]
+            if cu != uids + (extra_uid,) or gotc != wantc:
+                bad(f"alias.{dname}", "row-mismatch-after-sibling-mutation", f"derived loader (uids {cu}) loads centre codes {gotc}, expected {wantc}")
+            gotp = [_centre(a) for a in np.asarray(P.asnumpy())]
+            wantp = [code(6 if u == extra_uid else tomo_of(u, ntomo), *POS[u]) for u in loader_uids(P)]
+            if gotp != wantp:
+                bad(f"alias.{dname}", "parent-row-mismatch", f"parent loads centre codes {gotp}, expected {wantp}")
+
     # group observers
     if N >= 2:
         G = LF.groupby("g")
